@@ -366,6 +366,7 @@ def make_machine():
             from recognizers_text.model import ModelFactory
             ModelFactory._ModelFactory__cache.clear()
             _LONG.clear()
+            _FPOBJ.clear()      # the models of the old cache are unreachable now; keeping them alive would only grow the process
             self.objects = {}
             self.trace.append(['clear_cache'])
 
@@ -401,6 +402,7 @@ def replay_trace(case):
     from recognizers_text.model import ModelFactory
     ModelFactory._ModelFactory__cache.clear()
     _LONG.clear()
+    _FPOBJ.clear()
     if 'trace' not in case:
         return run_request(case)
     vs = []
@@ -412,6 +414,7 @@ def replay_trace(case):
         elif s[0] == 'clear_cache':
             ModelFactory._ModelFactory__cache.clear()
             _LONG.clear()
+            _FPOBJ.clear()
         elif s[0] == 'concurrent':
             import threading
             rs = s[1]
